@@ -1213,3 +1213,143 @@ Proof.
     + constructor; [|exact B]. eapply Forall_impl; [|exact A]. intros e [E1 E2]. unfold apart. cbn [fst snd]. lia.
     + cbn [map snd]. rewrite C. reflexivity.
 Qed.
+
+(* ================================================================================================== *)
+(** * 8. HLgetdatainfo: never more than info_count entries, and exactly the extents the format defines *)
+
+(** ** 8a. capacity, for every input (no assumption on the tables or the lookup) *)
+Definition st_ok (cap : option Z) (st : Z * Z * list (Z * Z)) : Prop :=
+  match cap with
+  | None => snd st = [] /\ 0 <= fst (fst st)
+  | Some n => fst (fst st) = zlen (snd st) /\ fst (fst st) <= n
+  end.
+
+Lemma hl_table_bounded : forall blk refs nx blen total cap st st',
+  st_ok cap st -> hl_table blk refs nx blen total cap st = Some st' -> st_ok cap st'.
+Proof.
+  induction refs as [|r t IH]; intros nx blen total cap [[num accum] out] st' Hst H; cbn [hl_table] in H.
+  - inversion H; subst; assumption.
+  - destruct ((r =? 0) || hl_full cap num) eqn:E; [inversion H; subst; assumption|].
+    apply orb_false_iff in E. destruct E as [_ E]. destruct cap as [n|].
+    + destruct (blk r) as [[o len]|]; [|discriminate]. eapply IH; [|exact H].
+      unfold st_ok in *. cbn [fst snd] in *. unfold hl_full in E. apply Z.leb_gt in E.
+      rewrite zlen_app. unfold zlen at 2. cbn [List.length]. lia.
+    + eapply IH; [|exact H]. unfold st_ok in *. cbn [fst snd] in *. destruct Hst. split; [assumption|lia].
+Qed.
+
+Lemma hl_tables_bounded : forall blk tables blen total cap st st',
+  st_ok cap st -> hl_tables blk tables blen total cap st = Some st' -> st_ok cap st'.
+Proof.
+  induction tables as [|[nx refs] more IH]; intros blen total cap [[num accum] out] st' Hst H; cbn [hl_tables] in H.
+  - inversion H; subst; assumption.
+  - destruct (hl_full cap num); [inversion H; subst; assumption|].
+    destruct (hl_table blk refs nx blen total cap (num, accum, out)) as [st1|] eqn:T; [|discriminate].
+    pose proof (hl_table_bounded _ _ _ _ _ _ _ _ Hst T) as B.
+    destruct (nx =? 0); [inversion H; subst; assumption|]. destruct st1 as [[a b] c]. eapply IH; eassumption.
+Qed.
+
+(** info_count is an [unsigned] in C *)
+Definition cap_ok (cap : option Z) : Prop := match cap with Some n => 0 <= n | None => True end.
+
+Theorem hl_getdatainfo_bounded : forall blk tables blen total cap ret out,
+  cap_ok cap -> hl_getdatainfo blk tables blen total cap = Some (ret, out) ->
+  match cap with
+  | None => out = [] /\ 0 <= ret                   (* NULL arrays: nothing is written *)
+  | Some n => ret = zlen out /\ ret <= n /\ 0 < n   (* at most info_count entries, and all of them counted *)
+  end.
+Proof.
+  intros blk tables blen total cap ret out Hc H. unfold hl_getdatainfo in H. unfold cap_ok in Hc.
+  assert (st_ok cap (0, 0, [])) as S0.
+  { destruct cap as [n|]; unfold st_ok; cbn [fst snd]; [|split; [reflexivity|lia]]. split; [reflexivity|exact Hc]. }
+  assert (match tables with [] => None | _ :: _ =>
+            match hl_tables blk tables blen total cap (0, 0, []) with Some (num, _, o) => Some (num, o) | None => None end end
+          = Some (ret, out) -> st_ok cap (ret, 0, out)) as K.
+  { intro H'. destruct tables as [|t ts]; [discriminate|].
+    destruct (hl_tables blk (t :: ts) blen total cap (0, 0, [])) as [[[num acc] o]|] eqn:T; [|discriminate].
+    inversion H'; subst. pose proof (hl_tables_bounded _ _ _ _ _ _ _ S0 T) as B.
+    destruct cap; unfold st_ok in *; cbn [fst snd] in *; exact B. }
+  destruct cap as [n|].
+  - destruct n as [|p|p]; [discriminate| |]; apply K in H; unfold st_ok in H; cbn [fst snd] in H; destruct H; repeat split; try assumption; lia.
+  - apply K in H. unfold st_ok in H; cbn [fst snd] in H. destruct H. split; assumption.
+Qed.
+
+(** ** 8b. exactness, for elements laid out the way the library lays them out *)
+Fixpoint sumlen (l : list (Z * Z)) : Z := match l with [] => 0 | e :: t => snd e + sumlen t end.
+
+Lemma sumlen_app : forall a b, sumlen (a ++ b) = sumlen a + sumlen b.
+Proof. induction a; intro b; cbn [sumlen app]; [lia|]. rewrite IHa. lia. Qed.
+
+(** the last data block holds only what is left of the element *)
+Fixpoint trim (ents : list (Z * Z)) (accum blen total : Z) : list (Z * Z) :=
+  match ents with
+  | [] => []
+  | (o, len) :: t =>
+    match t with
+    | [] => [(o, if len =? blen then total - accum else len)]
+    | _ => (o, len) :: trim t (accum + len) blen total
+    end
+  end.
+
+Lemma trim_length : forall ents accum blen total, List.length (trim ents accum blen total) = List.length ents.
+Proof.
+  induction ents as [|[o len] t IH]; intros; [reflexivity|]. cbn [trim]. destruct t; [reflexivity|].
+  cbn [List.length]. rewrite IH. reflexivity.
+Qed.
+
+Definition take (n num : Z) {A} (l : list A) : list A := firstn (Z.to_nat (n - num)) l.
+
+(** a table that is not the last one: every slot holds a block *)
+Lemma hl_table_nonlast : forall blk nx blen total n refs ents,
+  nx <> 0 -> Forall (fun r => r <> 0) refs -> Forall2 (fun r e => blk r = Some e) refs ents ->
+  forall num accum out, num <= n ->
+  hl_table blk refs nx blen total (Some n) (num, accum, out) =
+  Some (num + zlen (take n num ents), accum + sumlen (take n num ents), out ++ take n num ents).
+Proof.
+  intros blk nx blen total n refs ents Hnx Hnz F. induction F as [|r e refs ents Hb F IH]; intros num accum out Hn.
+  - cbn [hl_table]. unfold take. rewrite firstn_nil. cbn [sumlen]. unfold zlen. cbn [List.length].
+    rewrite app_nil_r. f_equal. f_equal. f_equal; lia.
+  - cbn [hl_table]. pose proof (Forall_inv Hnz) as Hr. destruct (r =? 0) eqn:E0; [apply Z.eqb_eq in E0; contradiction|].
+    cbn [orb hl_full]. destruct (n <=? num) eqn:Ef.
+    + apply Z.leb_le in Ef. unfold take. replace (Z.to_nat (n - num)) with 0%nat by lia. cbn [firstn sumlen].
+      unfold zlen. cbn [List.length]. rewrite app_nil_r. f_equal. f_equal. f_equal; lia.
+    + apply Z.leb_gt in Ef. rewrite Hb. destruct e as [o len].
+      destruct (nx =? 0) eqn:En; [apply Z.eqb_eq in En; contradiction|]. cbn [andb].
+      rewrite (IH (Forall_inv_tail Hnz)) by lia. unfold take.
+      replace (Z.to_nat (n - num)) with (S (Z.to_nat (n - (num + 1)))) by lia. cbn [firstn].
+      rewrite <- app_assoc. cbn [app sumlen snd].
+      unfold zlen. cbn [List.length]. f_equal. f_equal. f_equal; lia.
+Qed.
+
+(** the last table: data blocks, then slots never used *)
+Lemma hl_table_last : forall blk blen total n refs ents z,
+  Forall (fun r => r <> 0) refs -> Forall (fun r => r = 0) z -> Forall2 (fun r e => blk r = Some e) refs ents ->
+  forall num accum out, num <= n ->
+  exists acc', hl_table blk (refs ++ z) 0 blen total (Some n) (num, accum, out) =
+  Some (num + zlen (take n num (trim ents accum blen total)), acc', out ++ take n num (trim ents accum blen total)).
+Proof.
+  intros blk blen total n refs ents z Hnz Hz F. induction F as [|r e refs ents Hb F IH]; intros num accum out Hn.
+  - exists accum. cbn [app trim]. unfold take. rewrite firstn_nil. unfold zlen. cbn [List.length]. rewrite app_nil_r, Z.add_0_r.
+    destruct z as [|z0 zs]; [reflexivity|]. cbn [hl_table]. rewrite (Forall_inv Hz). reflexivity.
+  - cbn [app hl_table]. pose proof (Forall_inv Hnz) as Hr. destruct (r =? 0) eqn:E0; [apply Z.eqb_eq in E0; contradiction|].
+    cbn [orb hl_full]. destruct (n <=? num) eqn:Ef.
+    + apply Z.leb_le in Ef. exists accum. unfold take. replace (Z.to_nat (n - num)) with 0%nat by lia. cbn [firstn].
+      unfold zlen. cbn [List.length]. rewrite app_nil_r, Z.add_0_r. reflexivity.
+    + apply Z.leb_gt in Ef. rewrite Hb. destruct e as [o len]. cbn [Z.eqb andb].
+      destruct ents as [|e2 ents'].
+      * (* the last data block *)
+        inversion F; subst. cbn [app trim].
+        assert (match z with [] => false | r' :: _ => negb (r' =? 0) end = false) as M.
+        { destruct z as [|z0 zs]; [reflexivity|]. rewrite (Forall_inv Hz). reflexivity. }
+        rewrite M. cbn [negb andb Z.eqb].
+        destruct (IH (Forall_inv_tail Hnz) (num + 1) accum (out ++ [(o, if len =? blen then total - accum else len)]) ltac:(lia))
+          as [acc' IH']. cbn [app trim] in IH'. exists acc'. rewrite IH'. unfold take.
+        replace (Z.to_nat (n - num)) with (S (Z.to_nat (n - (num + 1)))) by lia. cbn [firstn]. rewrite !firstn_nil.
+        unfold zlen. cbn [List.length]. rewrite app_nil_r. f_equal. f_equal. f_equal. lia.
+      * inversion F as [|r2 e2' refs' ents'' Hb2 F2]; subst. cbn [app].
+        pose proof (Forall_inv (Forall_inv_tail Hnz)) as Hr2. cbv beta in Hr2.
+        destruct (r2 =? 0) eqn:E2; [apply Z.eqb_eq in E2; contradiction|]. cbn [negb andb Z.eqb].
+        destruct (IH (Forall_inv_tail Hnz) (num + 1) (accum + len) (out ++ [(o, len)]) ltac:(lia)) as [acc' IH'].
+        cbn [app] in IH'. exists acc'. rewrite IH'. cbn [trim]. destruct e2 as [o2 len2]. unfold take.
+        replace (Z.to_nat (n - num)) with (S (Z.to_nat (n - (num + 1)))) by lia. cbn [firstn].
+        rewrite <- app_assoc. cbn [app]. unfold zlen. cbn [List.length]. f_equal. f_equal. f_equal. lia.
+Qed.
